@@ -536,6 +536,9 @@ def c01(ctx):
                 # always rejected
                 if (len(s) == 0 or b"@" not in s or s.startswith(b"@") or s.endswith(b"@")) and ef[1] == "0":
                     ctx.S("empty string / missing '@' / empty local part / empty domain accepted", op="E %d %d %s" % (m, t, hx(s)), input=repr(s), impl=el)
+                if t == 0 and not ef[1].startswith("F") and int(ef[1]) > 0:
+                    ctx.S("with TLD checking off the result code is a TLD class (the caller's allow_tld mask would then decide an address that is valid)",
+                          op="E %d %d %s" % (m, t, hx(s)), input=repr(s), impl=el)
                 if t == 0 and b"@" in s:
                     l = s[:s.rindex(b"@")]
                     if len(l) > 64 and ef[1] == "0":
@@ -620,6 +623,19 @@ def c07(ctx):
     spc = ctx.spec(["sT %s" % hx(l) for l in labels])
     spr = ctx.spec(["sS %s" % hx(b"x." + l) for l in labels])
     pres = [b"x."] if ctx.tier == "quick" else [b"x.", b"a.b.", b"a.b.c.", b"com.org.net.x."]
+    # second-level labels that merely END in (or contain) a reserved word: the TLD is still classified by the table
+    glued = [b"counterexample.", b"forexample.", b"my-example.", b"a.b.my-example.", b"examples.", b"xexample.", b"example.x.", b"example.a.b.", b"EXAMPLE.x.y.", b"test.", b"localhost."]
+    common = [l for l in (b"com", b"net", b"org", b"COM", b"Org", b"ru", b"museum", b"arpa", b"xn--p1ai", b"zz", b"comm") ]
+    gd = [g + l for g in glued for l in common]
+    gsp = ctx.spec(["sS %s" % hx(d) for d in gd])
+    gcl = ctx.spec(["sT %s" % hx(d.rsplit(b".", 1)[-1]) for d in gd])
+    for m in MODES:
+        cg = ctx.K("tld-glued%d" % m, "default", ["E %d 1 %s" % (m, hx(b"a@" + d)) for d in gd], nontrivial=lambda op, ln: True)
+        for d, cl, rs, lc in zip(gd, cg, gsp, gcl):
+            f = fields(cl)
+            want = "8" if rs == "sS 1" else lc.split(" ")[1]
+            if f[1] != "-2" and f[1] != want:
+                ctx.S("TLD class differs from the shipped table (a label that merely contains a reserved word is not reserved)", op="E %d 1 %s" % (m, hx(b"a@" + d)), domain=repr(d), impl=cl, expected_rc=want)
     for m in MODES:
         for pre in pres:
             sub = labels if (m == 5321 or ctx.tier != "quick") else labels[::4]
@@ -690,7 +706,8 @@ def c08(ctx):
     unl = [b"or", b"comm", b"googl", b"museu", b"arp", b"nam", b"z", b"G", b"zz", b"co-m"] + [n[:-1] for n in tbln[::120] if len(n) > 2] + [n + b"x" for n in tbln[::150]]
     unl = [u for u in dict.fromkeys(unl) if u.lower() not in set(tbln) and u.lower() not in (b"test", b"example", b"invalid", b"localhost", b"onion")]
     unl_addrs = [b"a@mail." + u for u in unl]
-    addrs = addrs + unl_addrs
+    resv_addrs = [b"a@example.com", b"a@www.example.net", b"a@EXAMPLE.ORG", b"a@a.b.Example.Com", b"a@x.test", b"a@localhost", b"a@x.invalid", b"a@x.onion", b"a@x.example"]
+    addrs = list(dict.fromkeys(addrs + unl_addrs + resv_addrs))
     masks = range(0, 2048, 1 if ctx.tier != "quick" else 37)
     for m in MODES:
         res = {}
@@ -705,6 +722,8 @@ def c08(ctx):
                 k = int(k)
                 if t == 1 and 1 <= rc <= 9 and (f[1] == "1") != bool(k & (1 << (rc + 1))):
                     ctx.S("address accepted/refused against its class bit", op=op, impl=cl)
+                if t == 1 and bytes.fromhex(a) in resv_addrs and rc != 8:
+                    ctx.S("a reserved domain is not of class 'special' (its own bit, and no other, must govern it)", op=op, impl=cl)
                 if t == 1 and bytes.fromhex(a) in unl_addrs and f[2] != "2" and (f[1] != "0" or f[2] != "26"):
                     ctx.S("an unlisted TLD is not refused as an invalid TLD (whatever the mask)", op=op, impl=cl)
         for (t, a), outs in res.items():
@@ -1222,6 +1241,7 @@ def c17(ctx):
     locs = list(dict.fromkeys(locs))
     doms = [d for d in dict.fromkeys(gen.domain_strings("quick", ctx.rng)[:: (6 if ctx.tier == "quick" else 1)]) if 0 not in d]
     mails = [e for e in dict.fromkeys(gen.email_strings("quick", ctx.rng)[:: (5 if ctx.tier == "quick" else 1)]) if 0 not in e]
+    mails += [b"user@xn--abc.com", b"user@xn--0.com", b"user@mail.xn--bcher.example", b"user@ab--cd.com", b"user@xn--a.com", "user@почта.рф".encode(), b"user@a..b", b"user@-a.com"]
     for t in (b"com", b"museum", b"xn--p1ai", b"test", b"example.com", b"zz"):
         mails += [b"a@mail.shop_" + t, b"a@intranet_" + t, b"a@a_b." + t, b"a@_." + t, b"a@x._" + t, b"a@x." + t + b"_", b"a@x_y.z_w." + t, b"a@my_example.com", b"a@x.my_" + t]
     res = {}
@@ -1291,6 +1311,14 @@ def c17(ctx):
                     if loc_ok and got[1] != want:
                         ctx.S("LABELS_ALLOW_UNDERSCORE build: a host name with '_' is not classified by its whole last label", op="E %d 1 %s" % (m, hx(e)), variant=v,
                               impl=r[("E", m, 1)][i], expected_rc=want)
+        if not hasus:
+            for t in (0, 1):
+                for e, a, b in zip(mails, base[("E", 6531, t)], r[("E", 6531, t)]):
+                    fa, fb = fields(a), fields(b)
+                    dom_a = fa[1] == "-2" or (not fa[1].startswith("F") and -35 <= int(fa[1]) <= -16)
+                    loc_b = (not fb[1].startswith("F")) and -15 <= int(fb[1]) <= -4
+                    if dom_a and not loc_b and fa[1:3] != fb[1:3]:
+                        ctx.S("a local-part option changes what mode 6531 says about the DOMAIN of an address", op="E 6531 %d %s" % (t, hx(e)), variant=v, default=a, option=b)
         for m in (822, 5321, 5322):
             for t in (0, 1):
                 for e, a, b in zip(mails, base[("E", m, t)], r[("E", m, t)]):
@@ -1468,6 +1496,7 @@ def c10(ctx):
         ascd = [d for d in dict.fromkeys(gen.domain_strings("quick", ctx.rng)[:: (20 if ctx.tier == "quick" else 2)]) if 0 not in d and all(x < 128 for x in d) and b"@" not in d and not d.startswith(b"[")]
         tbl = table_names(ctx)
         ascd += [b"x." + r[0] for r in tbl[:: (10 if ctx.tier == "quick" else 1)]] + [b"X." + r[0].upper() for r in tbl[::50]]
+        ascd += [b"x." + r[0] + b"." for r in tbl[::40]] + [b"mail.com.", b"xn--80a1acny.xn--p1ai.", b"iana.org.", b"localhost.", b"x.test.", b"b.com..", b"b.."]
         c6 = ctx.K("ascii6531", "default", ["E 6531 %d %s" % (t, hx(b"a@" + d)) for d in ascd])
         c5 = ctx.K("ascii5321", "default", ["E 5321 %d %s" % (t, hx(b"a@" + d)) for d in ascd])
         for d, a6, a5 in zip(ascd, c6, c5):
@@ -1579,27 +1608,32 @@ def c14(ctx):
         f.write("\n".join(hx(a) for a in addrs) + "\n")
     env = dict(os.environ, LC_ALL="C", TSAN_OPTIONS="halt_on_error=0:exitcode=66:report_signal_unsafe=0")
     runs = [(2, 3), (4, 2), (16, 1)] if ctx.tier == "quick" else [(2, 10), (3, 6), (4, 6), (8, 4), (16, 3)]
-    for nth, rounds in runs:
-        p = subprocess.run([ctx.drive("x:tsan"), fn, str(nth), str(rounds)], stdout=subprocess.PIPE, stderr=subprocess.PIPE, env=env)
+    plan = [("x:tsan", nth, rounds) for nth, rounds in runs]
+    # the back ends that keep state in eav_setup / eav_free: fewer calls, many setup/free cycles (each round re-initialises)
+    for v in ctx.drives:
+        if v.startswith("x:tsan-"):
+            plan += [(v, 8, 2), (v, 3, 4)] if ctx.tier == "quick" else [(v, 8, 6), (v, 3, 12), (v, 16, 3)]
+    for v, nth, rounds in plan:
+        p = subprocess.run([ctx.drive(v), fn, str(nth), str(rounds)], stdout=subprocess.PIPE, stderr=subprocess.PIPE, env=env)
         out = p.stdout.decode(errors="replace")
         m = re.search(r"calls=(\d+) mismatches=(\d+)", out)
         calls = int(m.group(1)) if m else 0
         ctx.evals += calls
         ctx.nontrivial.update("thr%d:%s" % (nth, hx(a)) for a in addrs)
-        ctx.streams["tsan %d threads x %d rounds" % (nth, rounds)] = dict(ops=calls, k_mismatch=0)
+        ctx.streams["%s %d threads x %d rounds" % (v[2:], nth, rounds)] = dict(ops=calls, k_mismatch=0)
         if len(ctx.samples) < 6:
             ctx.samples.append(dict(threads=nth, rounds=rounds, output=out.strip(), address=repr(ctx.rng.choice(addrs))))
         err = p.stderr.decode(errors="replace")
         if "ThreadSanitizer: data race" in err or p.returncode == 66:
             loc = re.findall(r"#0 (\S+) (\S+)", err)[:4]
-            ctx.S("unsynchronised access to shared mutable memory (ThreadSanitizer data race)", op="mt %d threads x %d rounds over %d addresses" % (nth, rounds, len(addrs)),
+            ctx.S("unsynchronised access to shared mutable memory (ThreadSanitizer data race)", op="mt[%s] %d threads x %d rounds over %d addresses" % (v[2:], nth, rounds, len(addrs)),
                   report=err[:1500], frames=loc)
         elif m and int(m.group(2)) != 0:
             ctx.S("a thread obtained an outcome different from the sequential run", op="mt %d threads x %d rounds" % (nth, rounds), output=out)
         elif p.returncode != 0:
             ctx.S("threaded run failed", op="mt %d threads" % nth, rc=p.returncode, stderr=err[-800:])
 RULES["C14"] = "validation calls executed by 2-16 concurrent threads (own eav_t each, shared read-only strings, all modes, tld on/off) under ThreadSanitizer, each compared with the single-threaded outcome; distinct = (thread count, address)"
-VARIANTS_OF["C14"] = {"quick": ["x:tsan"], "thorough": ["x:tsan"]}
+VARIANTS_OF["C14"] = {"quick": ["x:tsan", "x:tsan-idnkit"], "thorough": ["x:tsan", "x:tsan-idnkit", "x:tsan-idn"]}
 TRUSTED_EXTRA["C14"] = ["data races in the compiled code are a runtime fact: ThreadSanitizer (happens-before detector, any conflicting pair it observes, whatever the schedule) covers them; what is proved is schedule-independence of the model whose shared state is read from the object files (objdump: no object in a writable section)"]
 ASSUME["C14"] = ["libidn2 itself is thread-safe (not instrumented)"]
 
